@@ -62,16 +62,18 @@ pub fn lex(
                 line: i as u16,
                 col: 2,
                 char_pos: char_pos + 1,
-                byte_pos: byte_pos + line.chars().next().unwrap().len_utf8() as u32,
+                byte_pos: byte_pos + line.chars().next().map_or(0, char::len_utf8) as u32,
             },
             src: src.clone(),
         };
-        if i > u16::MAX as usize {
+        // Line and column numbers start at 1, and the position after
+        // the last line or character must be representable as well
+        if i + 1 >= u16::MAX as usize {
             let err = LexError::FileTooLong;
             let span = span();
             return (Vec::new(), vec![Sp { value: err, span }], src);
         }
-        if line.chars().count() > u16::MAX as usize {
+        if line.chars().count() >= u16::MAX as usize {
             let err = LexError::LineTooLong(i + 1);
             let span = span();
             return (Vec::new(), vec![Sp { value: err, span }], src);
